@@ -165,7 +165,7 @@ fn gfields() -> BoxedStrategy<Fields> {
         .boxed()
 }
 
-fn parsed<I: ParseInst>(s: &str, st: &mut Stats) -> Result<(), String> {
+pub fn parsed<I: ParseInst>(s: &str, st: &mut Stats) -> Result<(), String> {
     let Ok(Ok(p)) = parse::<I>(s) else { return Ok(()) };
     let o = observe(&p);
     let t = text(&p).map_err(|m| format!("[{}] to_string() panicked for the PURL parsed from {s:?}: {m}", I::NAME))?;
